@@ -1123,10 +1123,29 @@ fn main() -> u64 {
 }
 "#;
 
-/// Seeds known to panic on the unchanged tree (exercise the classifier).
-pub const SEEDS: [(&str, &str); 2] = [
+/// Seeds: hand-minimised programs for failure classes known on the unchanged tree. They keep every
+/// known class exercised (and re-checked after a repair) even in the quick tier, whose base list is short.
+pub const SEEDS: [(&str, &str); 8] = [
     ("seed/u256-const-rem-zero", "script;\n\nconst X: u256 = 5u256 % 0u256;\n\nfn main() -> u256 {\n    X\n}\n"),
     ("seed/code-after-return", "script;\n\nfn f() -> u64 {\n    return 1;\n    2\n}\n\nfn main() -> u64 {\n    f()\n}\n"),
+    (
+        "seed/generic-call-with-untyped-literal",
+        "script;\n\nfn id<T>(x: T) -> T {\n    x\n}\n\nfn g(n: u8) -> u8 {\n    n\n}\n\nfn main() -> u8 {\n    g(id(31))\n}\n",
+    ),
+    (
+        "seed/array-literal-mixed-int-suffix-in-struct-field",
+        "script;\n\nstruct Acc {\n    hist: [u64; 3],\n}\n\nfn main() -> u64 {\n    let acc = Acc { hist: [0u8, 0, 0] };\n    acc.hist[0]\n}\n",
+    ),
+    (
+        "seed/compound-assign-to-index-of-ref-mut-array",
+        "script;\n\nfn f(ref mut v: [u8; 2], n: u8) {\n    v[0] += n;\n}\n\nfn main() {\n    let mut b = [1u8, 2u8];\n    f(b, 3u8);\n}\n",
+    ),
+    ("seed/where-bound-names-type-parameter", "library;\n\npub fn total<S>(s: S) -> u64 where S: S {\n    0\n}\n"),
+    ("seed/enum-named-like-builtin-type", "script;\n\nenum u8 {\n    A: (),\n}\n\nfn main() {}\n"),
+    (
+        "seed/array-literal-of-arrays-with-different-lengths",
+        "script;\n\nfn main() {\n    let a = [1u8, 2u8];\n    let c: [u8; 0] = [];\n    let arr = [a, c];\n}\n",
+    ),
 ];
 
 /// Render one generated case as a stand-alone script whose `main` is the case body (so that the
@@ -1225,10 +1244,10 @@ pub fn e2e_bases(want: usize) -> Vec<Base> {
 // ---------------------------------------------------------------------------------------------
 // Scale ladder
 
-pub const LADDER_FAMILIES: [&str; 24] = [
+pub const LADDER_FAMILIES: [&str; 25] = [
     "consts", "locals", "fields", "args", "nested_blocks", "nested_generics", "nested_tuples", "expr_chain", "nested_if",
     "match_arms", "enum_variants", "fns", "array_repeat", "array_lit", "nested_parens", "str_len", "nested_structs",
-    "tuple_width", "nested_while", "storage_fields", "configurables", "shadowing", "generic_params", "method_chain",
+    "tuple_width", "nested_while", "storage_fields", "configurables", "shadowing", "generic_params", "method_chain", "b256_consts",
 ];
 
 /// Families whose failure mode is a process abort (deep recursion): run one rung per request anyway,
@@ -1427,6 +1446,14 @@ pub fn ladder_src(family: &str, n: usize) -> String {
                 let _ = write!(o, "{i}u64, ");
             }
             o.push_str(")\n}\n");
+        }
+        "b256_consts" => {
+            // n distinct 32-byte constants = 4n data-section words
+            o.push_str("script;\n\nfn main() -> b256 {\n    let a = [\n");
+            for i in 0..n {
+                let _ = writeln!(o, "        0x{:064x},", (i as u128 + 1) * 0x1_0000_0001u128);
+            }
+            let _ = writeln!(o, "    ];\n    a[{}]\n}}", n - 1);
         }
         "method_chain" => {
             o.push_str("script;\n\nfn f(a: u64) -> u64 {\n    a");
